@@ -53,7 +53,7 @@ ATOMS = [
     ('"\\ud83d"', 'str-escape-lone-surrogate'),
     ('"\\\\n"', 'str-escaped-backslash-then-letter'),
     ('"a\\\\/b"', 'str-escaped-backslash-then-solidus'),
-    ('"é€"', 'str-raw-nonascii'),
+    ('"\u00e9\u20ac"', 'str-raw-nonascii'),
     ('"\U0001f600"', 'str-raw-astral'),
     ('0', 'num-zero'),
     ('-0', 'num-neg-zero-int'),
